@@ -35,6 +35,9 @@ func (s *Sim) boot() {
 			// the caller's context ends by its own deadline (context.WithTimeout style)
 			ctx, cancel = context.WithDeadline(context.Background(), time.Now().Add(time.Duration(s.cfg.CtxDeadline[i])*unit))
 		}
+		if i < len(s.cfg.CtxBackground) && s.cfg.CtxBackground[i] {
+			ctx, cancel = context.Background(), func() {}
+		}
 		s.ctxs = append(s.ctxs, ctx)
 		s.cancels = append(s.cancels, cancel)
 	}
@@ -169,7 +172,7 @@ func (s *Sim) randomRun(ndgram int, urgent bool, wantClose, wantCtx bool) {
 				if s.cfg.V4 && s.rng.Intn(4) == 0 {
 					ch = append(ch, choice{"fire", c + 1})
 				}
-			} else if wantCtx && !s.retd[c] && !s.ctxDone[c] && s.rng.Intn(12) == 0 {
+			} else if wantCtx && !s.retd[c] && !s.ctxDone[c] && !s.uncancellable(c+1) && s.rng.Intn(12) == 0 {
 				ch = append(ch, choice{"ctx", c + 1})
 			}
 		}
@@ -325,7 +328,14 @@ func (s *Sim) gridRun(k, where int) {
 			continue
 		}
 		if s.cfg.Tries < 0 && elapsed > s.cfg.T*40 {
-			s.ctxCancel(1)
+			if s.uncancellable(1) {
+				if s.closeState != "" {
+					break
+				}
+				s.closeStart()
+			} else {
+				s.ctxCancel(1)
+			}
 			continue
 		}
 		s.tick()
@@ -500,6 +510,11 @@ func TestSim(t *testing.T) {
 				cfg.CtxDeadline = append(cfg.CtxDeadline, []int{0, 1, 2, 3, 5, 8}[rng.Intn(6)])
 			}
 		}
+		if rng.Intn(4) == 0 {
+			for c := 0; c < ncall; c++ {
+				cfg.CtxBackground = append(cfg.CtxBackground, rng.Intn(2) == 0)
+			}
+		}
 		urgent := mode == "c11" || i%3 == 0
 		cfg.Urgent = urgent
 		cfg.Mode = "random"
@@ -535,6 +550,9 @@ func TestSim(t *testing.T) {
 								continue // quick: a slice of the grid
 							}
 							cfg := Cfg{T: T, Tries: n, BufCap: 5, V4: v4, Timed: true, Urgent: true, Mode: "grid", Xid: []int{7}}
+							if n < 0 && (k+where)%2 == 1 {
+								cfg.CtxBackground = []bool{true} // retries for ever, and only Close (or an answer) ends the call
+							}
 							kk, ww := k, where
 							runOne(cfg, "grid", func(s *Sim) { s.gridRun(kk, ww) })
 							stats["grid_runs"]++
